@@ -121,6 +121,93 @@ def asserted_stmt(st):
     return None
 
 
+def native_binding(mod, cls):
+    """(attribute name, native function name) for the class attribute of `cls` that is bound to a function
+    of a loaded shared library: `<attr> = <lib>.<name>` / getattr(<lib>, "<name>") with <lib> a module-level
+    name.  None when the class body has none."""
+    for k, v in pf.class_attrs(cls).items():
+        nm = native_name(v)
+        if nm is None:
+            continue
+        lib = v.value if isinstance(v, ast.Attribute) else v.args[0]
+        if isinstance(lib, ast.Name) and lib.id in mod.assigns:
+            return k, nm
+    return None
+
+
+def baseline_graph(mod, table="BASELINE_CODES"):
+    """Structure behind the public registry of native baselines:
+       registered  code -> function name
+       helpers     name of a module function handed on as a *callable argument* by a registered function
+                   (the per-spin kernels behind the spin-scaling wrapper) -> code
+       reach       every module function reachable from the registry (callees and such callables)
+       features    function name -> parameter names that receive (a slice of) the raw feature array, i.e.
+                   the first parameter of a registered function, propagated through the calls"""
+    tab = mod.assigns.get(table)
+    if not isinstance(tab, ast.Dict):
+        raise AnalysisError("%s is no longer a literal dict in %s" % (table, mod.rel))
+    registered = {}
+    for k, v in zip(tab.keys, tab.values):
+        if isinstance(v, ast.Name) and v.id in mod.functions:
+            registered[k.value if isinstance(k, ast.Constant) else pf.src(k)] = v.id
+    features, helpers, reach = {}, {}, set()
+    callables = {}   # (function, parameter) -> set of module functions it may be bound to
+    todo = []
+    for code, fname in registered.items():
+        ps = param_names(mod.functions[fname])
+        if ps:
+            todo.append((fname, ps[0], code))
+    seen = set()
+    while todo:
+        fname, pname, code = todo.pop()
+        if (fname, pname) in seen:
+            continue
+        seen.add((fname, pname))
+        reach.add(fname)
+        features.setdefault(fname, set()).add(pname)
+        fn = mod.functions[fname]
+        for c in pf.walk_no_nested(fn):
+            if not (isinstance(c, ast.Call) and isinstance(c.func, ast.Name)):
+                continue
+            targets = []
+            if c.func.id in mod.functions:
+                targets = [c.func.id]
+            elif (fname, c.func.id) in callables:
+                targets = sorted(callables[(fname, c.func.id)])
+            for g in targets:
+                gps = param_names(mod.functions[g])
+                reach.add(g)
+                for i, a in enumerate(c.args):
+                    if i >= len(gps):
+                        break
+                    if isinstance(a, ast.Name) and a.id in mod.functions and a.id not in (fname,):
+                        callables.setdefault((g, gps[i]), set()).add(a.id)
+                        helpers.setdefault(a.id, code)
+                        reach.add(a.id)
+                    if pf.base_name(a) == pname:
+                        todo.append((g, gps[i], code))
+                for kw in c.keywords:
+                    if kw.arg in gps and pf.base_name(kw.value) == pname:
+                        todo.append((g, kw.arg, code))
+    # second sweep so that callables discovered late are followed
+    changed = True
+    while changed:
+        changed = False
+        for fname in sorted(reach):
+            fn = mod.functions[fname]
+            for pname in sorted(features.get(fname, ())):
+                for c in pf.walk_no_nested(fn):
+                    if isinstance(c, ast.Call) and isinstance(c.func, ast.Name) and (fname, c.func.id) in callables:
+                        for h in callables[(fname, c.func.id)]:
+                            hps = param_names(mod.functions[h])
+                            for i, a in enumerate(c.args):
+                                if i < len(hps) and pf.base_name(a) == pname and hps[i] not in features.get(h, set()):
+                                    features.setdefault(h, set()).add(hps[i])
+                                    reach.add(h)
+                                    changed = True
+    return {"registered": registered, "helpers": helpers, "reach": reach, "features": features}
+
+
 STR_CONSTS = {}
 
 
